@@ -65,7 +65,82 @@ NONTRIVIAL.update({
     "slice": lambda c: len(hexfields(c)[-1]) > 3,
 })
 
+def tree_ops(*ops):
+    rx = re.compile(r" (%s)( x|$| ;)" % "|".join(ops))
+    return lambda c: bool(rx.search(c))
+
+NONTRIVIAL.update({
+    # tree / hist: the pointer has at least one token (an op followed by a non-empty hex field)
+    "tree": lambda c: bool(re.search(r" [RMADW] x[0-9a-f]{2}", c)),
+    "hist": lambda c: c.count(" ; ") >= 1,
+})
+
+TREE_RULE = ("suite tree: every document with <= 3 (quick) / 4 (thorough) nodes over keys {\"\", a, ~, /, ~1, 0, -, 01, é} and scalars {null, true, 7, \"s\"} (TOML: without null), for each the pointer of every node "
+             "plus single-token perturbations (-, 0, 00, +1, 1, a, \"\", ~01, ~0, zz, len, len+1, 2^64, é; one more token below; last token replaced), on both backends, through resolve / resolve_mut / delete / "
+             "assign x 3-4 values / write-through, plus the every-node-addressable sweep per document; then seeded random documents (depth <= 5, fan-out <= 4) with shape-following and perturbed pointers; "
+             "non-trivial = non-root pointer; distinct = distinct case lines")
+
 PROPERTIES = {
+    "C01": {
+        "runs": [{"suite": s_} for s_ in ("token", "parse", "tokens", "buf", "slice", "prefix", "conv")],
+        "level_text": "Proved in Coq, one clause per safe public function family (constructors and the eight doors, Token::new/from_encoded/into_owned/from(integer), both Deserialize impls, from_tokens/From<Token>/From<usize>; "
+                      "tokens/components/front/back/get/split_front/split_back/parent/split_at and every range form through the (Bound,Bound) impl; strip_prefix/strip_suffix/intersection/concat/with_leading/trailing_token): "
+                      "valid inputs give valid RFC 6901 outputs; for every valid start and every finite history of the seven mutators with arbitrary arguments the buffer stays valid and every returned token is valid "
+                      "(induction over the history, C11); re-parsing succeeds and gives back the same text. Built on tokens_app and the per-function theorems of C02-C04, C11-C13. "
+                      "Tie: seven suites; an independent RFC 6901 recogniser in the harness is applied to the text of every value every call returns, plus re-parse-and-compare.",
+        "rule": "suites token, parse, tokens, buf, slice, prefix, conv as for C03, C02, C04, C11, C12, C13, C18; non-trivial and distinct per suite as there",
+    },
+    "C05": {
+        "runs": [{"suite": "tree", "filter": tree_ops("R", "M", "N")}],
+        "level_text": "Proved in Coq for every document, every valid pointer: the transliterated fuelled split_front walk equals spec_resolve, structural recursion on the token list (objects by the decoded token, arrays by a canonical "
+                      "index < length), never Panic/OutOfFuel; the result carries the selector path of the node with get_at path D = Some v (that very node, not a copy); for every well-formed document every node is resolved by the "
+                      "pointer spelled from its path (keys through Token::new, indices in decimal; needs the index round trip of C16 and injectivity of escaping); each error constructor is characterised by an iff over the first failing "
+                      "step (Unreachable / NotFound / FailedToParseIndex / OutOfBounds incl. '-'). Tie: resolve and resolve_mut on both backends: outcome, payloads, value, and the node identity found by std::ptr::eq search.",
+        "rule": TREE_RULE + "; for C05 the resolve / resolve_mut / every-node cases",
+    },
+    "C06": {
+        "runs": [{"suite": "tree", "filter": tree_ops("A")}],
+        "level_text": "Proved in Coq for every document, valid pointer and value: assign = spec_assign on the token list and expand (a fold from the back via split_back) = materialise (recursion from the front); one theorem per clause "
+                      "(root, existing element/member, append at length or '-', missing member, scalar in the path, the two errors) and the iff 'the only failures are a non-index token or an index > length on an existing array'; "
+                      "materialise keys objects by the DECODED token and creates arrays exactly for \"0\" and \"-\". Tie: assign on both backends: document afterwards and full Result, plus an independent reference assign written from the prose.",
+        "rule": TREE_RULE + "; for C06 the assign cases",
+    },
+    "C07": {
+        "runs": [{"suite": "tree", "filter": tree_ops("A")}],
+        "level_text": "Proved in Coq on spec_assign and transported to the model through C06's equality: atomic on error (document unchanged; needs the BTreeMap invariant because the functional model rebuilds the spine), read-your-write "
+                      "(with '-' read as the new last index; plain resolve for dash-free pointers), frame (every location neither a token-prefix of p nor below p keeps its value and node), replaced = what resolved before / None "
+                      "overwrites nothing, idempotence of a dash-free assignment; the invariant is preserved. These laws are independent of the transliterated algorithm. Oracle: the five laws executed on the real crate per case.",
+        "rule": TREE_RULE + "; for C07 the assign cases, each followed by the law checks (resolve after assign, every old path compared, assign twice)",
+    },
+    "C08": {
+        "runs": [{"suite": "tree", "filter": tree_ops("D")}],
+        "level_text": "Proved in Coq: delete = spec_delete, never Panic (the model's Vec::remove panics when idx >= len, so with for_len_incl this is false and with for_len provable); returns Some v iff the pointer resolves (to v); "
+                      "None leaves the document unchanged; on success exactly that member is removed (lookup None, other members and unrelated locations unchanged) or that element removed with successors shifted down by one "
+                      "(nth_error characterisation, length - 1); root leaves Null / empty table; invariants preserved. Tie: delete on both backends under catch_unwind.",
+        "rule": TREE_RULE + "; for C08 the delete cases",
+    },
+    "C09": {
+        "runs": [{"suite": "tree"}],
+        "level_text": "MOSTLY TIE (DESIGN 6/C09): the model has one transliteration per walk over a common value type, so backend agreement is true by construction there; the assurance is that EACH of the eight Rust functions "
+                      "(resolve/resolve_mut/assign/delete x serde_json/toml) is compared per case against the model on both backends, and the harness runs every common-domain case through both value types and compares outcomes directly. "
+                      "Proved: the parse_index-helper copy of resolve_mut is the same walk; deletes differ only at root (Null vs empty table); a value written through resolve_mut is read back by resolve at the same node and no other location changes.",
+        "rule": TREE_RULE + "; every json case in the common domain is also run on toml::Value and vice versa and compared",
+    },
+    "C10": {
+        "runs": [{"suite": "hist"}],
+        "level_text": "Proved in Coq by induction over the history from the single-step equalities: for every initial document and every finite list of assign / delete / resolve / write-through operations with valid pointers, "
+                      "folding the transliterated walks equals folding the reference tree (documents and every returned value), never Panic; the map invariant is preserved and in every reached document every node is resolved by "
+                      "the pointer spelled from its path; every error value produced locates a token of its pointer (C15). Tie: histories in lock step with serde_json::Value / toml::Value and an independent reference tree.",
+        "rule": "suite hist: every history of length <= 2 (quick) / 3 (thorough) over a ~54-operation alphabet (10 pointers x {delete, resolve, assign x 3 values}, 3 write-throughs) from 6 start documents on both backends, each followed by the "
+                "every-node sweep; seeded random histories up to 16 steps over random documents; non-trivial = at least two steps; distinct = distinct case lines",
+    },
+    "C15": {
+        "runs": [{"suite": "tree", "filter": tree_ops("R", "M", "A", "W")}],
+        "level_text": "Proved in Coq for resolve, resolve_mut (through a write) and assign: on failure position = number of tokens consumed (a token index of p), offset = sum of 1 + encoded length over the preceding tokens, the byte "
+                      "at offset is '/', get(position) is the culprit, split_at(offset) cuts directly before it; out-of-bounds carries (requested index with '-' as length, actual length), parse errors carry the reason for the "
+                      "token's own text; the label covers exactly the culprit's bytes, or is an empty span at offset / offset+1 inside p for an empty token. Tie: failing calls on both backends incl. the Label numbers.",
+        "rule": TREE_RULE + "; for C15 the failing resolve / resolve_mut / assign calls",
+    },
     "C12": {
         "runs": [{"suite": "slice", "profile": "debug"}, {"suite": "slice", "profile": "release"}, {"suite": "tokens"}],
         "level_text": "Proved in Coq for every token list of slash-free tokens (hence every valid pointer) and ALL bounds over N (up to and beyond usize::MAX): each of the five token-counting loops of slice.rs is characterised "
